@@ -38,6 +38,8 @@ def check(m, run):
     _sd3.bf3(m, run)      # the basis-function routines equal the Cox-de Boor polynomials and their exact derivatives on every span of the enumerated rational knot vectors
     _skel(m, run)
     single_function_rules(m, run, with_ho2=False)
+    from . import c16 as _c16r
+    _c16r.rnd1(m, run)        # evenly spaced parameters / generated knots reach the end of their interval exactly (shared with C16)
     sem = run.obs[n0:]
 
     def okp(*prefixes):
